@@ -156,6 +156,114 @@ def _member_positive(it):
     return _norm(base)
 
 
+# ---------------------------------------------------------------------------
+# full case folding (regex.FULLCASE | IGNORECASE: the default inside (?i:...) of a VERSION1 pattern)
+
+_FOLD_TABLES = None
+_FULLIGN = int(_rc.FULLIGNORECASE)
+FOLD_REASON = "full case folding: a text character that expands on folding meets a (?i) literal of a VERSION1 pattern"
+
+
+def _fold_tables():
+    """(inv, multi): inv[f] = code points other than f whose full fold is the single code point f;
+    multi[c] = the fold of c when it is longer than one code point.  Read off the real package's tables."""
+    global _FOLD_TABLES
+    if _FOLD_TABLES is None:
+        flags = int(_rc.FULL_CASE_FOLDING)
+        fc = _rx.fold_case
+        inv: dict[int, set] = {}
+        multi: dict[int, tuple] = {}
+        for c in range(MAXCP + 1):
+            if 0xD800 <= c <= 0xDFFF:
+                continue
+            f = fc(flags, chr(c))
+            if len(f) == 1:
+                if ord(f) != c:
+                    inv.setdefault(ord(f), set()).add(c)
+            else:
+                multi[c] = tuple(map(ord, f))
+        _FOLD_TABLES = (inv, multi)
+    return _FOLD_TABLES
+
+
+def _case_class(cp: int) -> set:
+    return set(_rx.get_all_cases(int(_IGNORE), cp)) | {cp}
+
+
+class _ICaseChar:
+    """One literal character compared with simple case folding."""
+
+    def __init__(self, value: int, flags: int):
+        self.ivs = tuple(_case_expand([(value, value)], flags & ~int(_FULL)))
+
+
+class _FoldChunk:
+    """A literal chunk the real engine compares after FULL case folding of the text (STRING_FLD).
+
+    Every text character is folded (to 1-3 code points) and the folded code points are compared,
+    case-insensitively, with the folded literal; the match has to end on a character boundary.
+    """
+
+    def __init__(self, chars):
+        inv, multi = _fold_tables()
+        flags = int(_rc.FULL_CASE_FOLDING)
+        self.chars = tuple(chars)
+        self.lf = tuple(map(ord, _rx.fold_case(flags, "".join(map(chr, chars)))))
+        changed = set().union(*inv.values()) if inv else set()
+        self.single = []
+        self.multi = []
+        folds: dict[tuple, list] = {}
+        for c, t in multi.items():
+            folds.setdefault(t, []).append(c)
+        for j, x in enumerate(self.lf):
+            cls = _case_class(x)
+            pts = {c for c in cls if c not in multi and c not in changed}
+            for f in cls:
+                pts |= inv.get(f, set())
+            self.single.append(tuple(_from_points(pts)))
+            opts = []
+            for t, cs in folds.items():
+                if len(t) <= len(self.lf) - j and all(t[k] in _case_class(self.lf[j + k]) for k in range(len(t))):
+                    opts.append((len(t), tuple(_from_points(cs))))
+            self.multi.append(opts)
+
+    def relevant_points(self):
+        pts = set(self.chars) | set(self.lf)
+        for ivs in self.single:
+            for lo, hi in ivs:
+                pts.update(range(lo, min(hi, lo + 8) + 1))
+        for opts in self.multi:
+            for _ln, ivs in opts:
+                for lo, hi in ivs:
+                    pts.update(range(lo, min(hi, lo + 8) + 1))
+        return pts
+
+
+def _fold_plan(items):
+    """Replace runs of full-case-insensitive Characters of a sequence by the chunks the real engine forms."""
+    out, run = [], []
+
+    def flush():
+        if not run:
+            return
+        chars = [n.value for n in run]
+        for lit in _rc.Sequence._fix_full_casefold(chars):
+            if (int(lit.case_flags) & _FULLIGN) == _FULLIGN:
+                out.append(_FoldChunk(lit.characters))
+            else:
+                out.extend(_ICaseChar(c, int(lit.case_flags)) for c in lit.characters)
+        run.clear()
+
+    for it in items:
+        if type(it).__name__ == "Character" and it.positive and not it.zerowidth and (int(it.case_flags or 0) & _FULLIGN) == _FULLIGN:
+            run.append(it)
+        else:
+            flush()
+            out.append(it)
+    flush()
+    return out
+
+
 _SINGLE = {"Character", "Range", "Property", "SetUnion", "SetInter", "SetDiff", "Any", "AnyAll", "AnyU"}
 
 
@@ -174,10 +282,23 @@ class Model:
             raise Unsupported("pattern not fully parsed")
         self.flags = flags
         self.sets: dict[int, list[tuple[int, int]]] = {}
+        self.plans: dict[int, list] = {}  # id(Sequence | Character) -> items with full-case runs replaced by chunks
+        self.fold_chunks: list[_FoldChunk] = []
         self._prepare(self.root)
 
     def _prepare(self, node):
         t = type(node).__name__
+        if isinstance(node, (_ICaseChar, _FoldChunk)):
+            if isinstance(node, _FoldChunk):
+                self.fold_chunks.append(node)
+            return
+        if t == "Character" and node.positive and not node.zerowidth and (int(node.case_flags or 0) & _FULLIGN) == _FULLIGN:
+            plan = _fold_plan([node])
+            if any(isinstance(x, _FoldChunk) for x in plan):
+                self.plans[id(node)] = plan
+                for x in plan:
+                    self._prepare(x)
+                return
         if t in _SINGLE:
             if getattr(node, "zerowidth", False):
                 raise Unsupported("zero-width set")
@@ -186,8 +307,14 @@ class Model:
                 ivs = [(0, MAXCP)]
             self.sets[id(node)] = tuple(ivs)
         elif t == "Sequence":
-            for it in node.items:
-                self._prepare(it)
+            plan = _fold_plan(node.items)
+            if any(isinstance(x, _FoldChunk) for x in plan):
+                self.plans[id(node)] = plan
+                for it in plan:
+                    self._prepare(it)
+            else:
+                for it in node.items:
+                    self._prepare(it)
         elif t == "Branch":
             for b in node.branches:
                 self._prepare(b)
@@ -222,6 +349,39 @@ class Model:
 
         def m(node, i, k):
             t = type(node).__name__
+            if t == "_ICaseChar":
+                if i >= endpos:
+                    return None
+                return k(i + 1) if eng.branch(in_intervals(ch[i], node.ivs)) else None
+            if t == "_FoldChunk":
+                lf_len = len(node.lf)
+
+                def step(i, j):
+                    if j == lf_len:
+                        return k(i)
+                    if i >= endpos:
+                        return None
+                    c = ch[i]
+                    if node.single[j] and eng.branch(in_intervals(c, node.single[j])):
+                        return step(i + 1, j + 1)
+                    for _ln, ivs in node.multi[j]:
+                        if eng.branch(in_intervals(c, ivs)):
+                            # The real engine's treatment of a character that expands on folding depends on
+                            # where the literal sits in the compiled program (required-string and start
+                            # checks); it is not modelled: the path gets no verdict (its witness is still run).
+                            raise Unsupported(FOLD_REASON)
+                    return None
+
+                return step(i, 0)
+            if id(node) in self.plans and t == "Character":
+                items = self.plans[id(node)]
+
+                def seq1(j, i):
+                    if j == len(items):
+                        return k(i)
+                    return m(items[j], i, lambda i2: seq1(j + 1, i2))
+
+                return seq1(0, i)
             if t in _SINGLE:
                 if i >= endpos:
                     return None
@@ -229,7 +389,7 @@ class Model:
                     return k(i + 1)
                 return None
             if t == "Sequence":
-                items = node.items
+                items = self.plans.get(id(node)) or node.items
 
                 def seq(j, i):
                     if j == len(items):
@@ -406,6 +566,15 @@ class PatternProxy:
         mdl = _MODELS.get(key)
         if mdl is None:
             mdl = _MODELS[key] = Model(*key)
+            if mdl.fold_chunks:
+                # full case folding is the one part of the model that paraphrases C code rather than tables:
+                # compare with the real engine before the first use of every such pattern
+                try:
+                    validate(key[0], key[1], maxlen=3, budget=4000)
+                except AssertionError as e:
+                    mdl.invalid = str(e)
+        if getattr(mdl, "invalid", None):
+            raise Unsupported(f"regex model disagrees with the real engine: {mdl.invalid[:200]}")
         STATS["patterns"].add(key)
         return mdl
 
@@ -521,7 +690,7 @@ def single_char_intervals(mdl: Model):
             return None
         node = node.items[0]
     if type(node).__name__ in _SINGLE:
-        return mdl.sets[id(node)]
+        return mdl.sets.get(id(node))
     return None
 
 
@@ -580,7 +749,10 @@ def validate(pattern: str, flags: int, *, ascii_only: bool = False, maxlen: int 
                 for pos in range(0, min(L, 1) + 1):
                     r = real.match(text, pos)
                     want = None if r is None else r.end()
-                    got = _concrete_match_end(mdl, text, pos)
+                    try:
+                        got = _concrete_match_end(mdl, text, pos)
+                    except Unsupported:
+                        continue  # paths the model declines (expanding characters under full case folding)
                     if want != got:
                         raise AssertionError(
                             f"regex stub mismatch for {pattern!r}/{flags} on {text!r}@{pos}: real={want} stub={got}"
@@ -627,13 +799,16 @@ def _boundary_alphabet(mdl: Model, ascii_only: bool):
             walk(sub)
 
     walk(mdl.root)
+    for chunk in mdl.fold_chunks:
+        pts |= chunk.relevant_points()
+        pts |= {0xDF, 0x17F, 0x212A, 0x130, 0x131, 0x49, 0x69, 0xFB06}
     if ascii_only:
         pts = {p for p in pts if p <= 0x7F}
     else:
         pts.add(MAXCP)
     out = sorted(pts)
     # keep the alphabet small enough for exhaustive length-3 enumeration
-    if len(out) > 18:
+    if len(out) > 18 and not mdl.fold_chunks:
         step = len(out) / 18.0
         out = sorted({out[int(i * step)] for i in range(18)} | {0x0A})
     return out
